@@ -346,7 +346,7 @@ func Normal(resp *dns.Msg, weighted func(section string, owner string, t uint16)
 			}
 			o := CanonName(f.Owner)
 			if weighted != nil && weighted(name, o, f.Type) {
-				counts[fmt.Sprintf("%s %d ttl=%d", o, f.Type, f.TTL)]++
+				counts[fmt.Sprintf("%s %d", o, f.Type)]++
 				continue
 			}
 			lines = append(lines, fmt.Sprintf("%s %s", o, gotKey(f)))
